@@ -28,7 +28,7 @@ def verify(name):
         demo_dst = os.path.join(wt, m['demo_dest'])
         shutil.copy(os.path.join(d, m['demo']), demo_dst)
         pkg = './' + os.path.dirname(m['demo_dest']) + '/'
-        run = "go test -count=1 -gcflags=all=-l -vet=off -run '%s' %s" % (m['demo_run'], pkg)
+        run = "go test -count=1 -gcflags=all=-l -vet=off %s -run '%s' %s" % (m.get('demo_flags', ''), m['demo_run'], pkg)
         rc0, out0 = sh(run, cwd=wt)
         rc, out = sh('git apply %s' % os.path.join(d, 'patch.diff'), cwd=wt)
         if rc != 0:
